@@ -321,7 +321,21 @@ func ruleOneOperatorPerRegion(c *Ctx) {
 			}
 			if u, ok := strip(opArg[0]).(*ssa.UnOp); ok && u.Op == token.MUL {
 				if ia, ok := u.X.(*ssa.IndexAddr); ok {
-					return sameVal(a[0], ia.X) || sameVal(resolved(a[0]), resolved(ia.X))
+					if sameVal(a[0], ia.X) || sameVal(resolved(a[0]), resolved(ia.X)) {
+						return true
+					}
+					// the batch handed over through a result variable: nil (nothing to range over) or the checked slice
+					n := 0
+					for _, alt := range valueAlternatives(ia.X, 3) {
+						if isNilConst(alt) {
+							continue
+						}
+						if !sameVal(alt, a[0]) {
+							return false
+						}
+						n++
+					}
+					return n > 0
 				}
 			}
 			if sl, ok := strip(a[0]).(*ssa.Slice); ok {
